@@ -653,6 +653,14 @@ func (w *World) genTargets(n int, withKind bool, nvars int) *J {
 	for i := 0; i < n; i++ {
 		t := JObj()
 		vals := strArr(r, r.Intn(4))
+		for _, sp := range w.ctx.Singles { // the (legacy) empty key is a key like any other: exact string equality
+			if sp.Key == "" && r.P(0.6) {
+				vals.A = append(vals.A, JStr(""))
+				if r.P(0.5) && len(vals.A) > 1 {
+					vals.A[0], vals.A[len(vals.A)-1] = vals.A[len(vals.A)-1], vals.A[0]
+				}
+			}
+		}
 		if withKind {
 			k := r.Pick([]string{"user", "user", "org", "dev", ""})
 			if k != "" || r.P(0.5) {
@@ -1101,11 +1109,24 @@ func (w *World) genNestedWeighted(c *EvalCase) {
 	inner := JObj(KV{"key", JStr("inner")}, KV{"included", JArr()}, KV{"excluded", JArr()}, KV{"salt", JStr(innerSalt)}, KV{"version", JInt(1)},
 		KV{"rules", JArr(JObj(KV{"id", JStr("ir")}, KV{"clauses", JArr(JObj(KV{"attribute", JStr("key")}, KV{"op", JStr("in")},
 			KV{"values", JArr(JStr("\x00never"))}, KV{"negate", JBool(innerIn)}, KV{"contextKind", JStr(kind)}))}))})
-	if r.P(0.4) { // the inner rule is weighted too (its own bucket, its own salt)
+	switch r.Intn(5) {
+	case 0, 1: // the inner rule is weighted too (its own bucket, its own salt)
 		inner.Get("rules").A[0].Set("weight", JInt(r.Pick2([]int64{0, 100000, 50000})))
 		if rk != "" {
 			inner.Get("rules").A[0].Set("rolloutContextKind", JStr(rk))
 		}
+	case 2: // ... and cannot compute a bucket: the context lacks the kind (the rule does not match)
+		inner.Get("rules").A[0].Set("weight", JInt(100000))
+		inner.Get("rules").A[0].Set("rolloutContextKind", JStr("nokind"))
+		innerIn = false
+	case 3: // ... or buckets by an attribute nobody has (bucket 0: matches unless the weight is 0)
+		wz := r.Pick2([]int64{0, 100000})
+		inner.Get("rules").A[0].Set("weight", JInt(wz))
+		inner.Get("rules").A[0].Set("bucketBy", JStr("noSuchAttribute"))
+		if rk != "" {
+			inner.Get("rules").A[0].Set("rolloutContextKind", JStr(rk))
+		}
+		innerIn = innerIn && wz != 0
 	}
 	var wt int64 = 50000
 	if b, ok := w.bucketOf(false, nil, rk, "outer", "", outerSalt); ok {
@@ -1130,8 +1151,25 @@ func (w *World) genNestedWeighted(c *EvalCase) {
 	flag := JObj(KV{"key", JStr("f0")}, KV{"on", JBool(true)}, KV{"prerequisites", JArr()}, KV{"targets", JArr()}, KV{"contextTargets", JArr()},
 		KV{"rules", JArr(JObj(KV{"id", JStr("r")}, KV{"variation", JInt(1)}, KV{"clauses", JArr(JObj(KV{"attribute", JStr("")}, KV{"op", JStr("segmentMatch")},
 			KV{"values", JArr(JStr("outer"))}, KV{"negate", JBool(false)}))}, KV{"trackEvents", JBool(false)}))},
-		KV{"fallthrough", JObj(KV{"rollout", JObj(KV{"variations", JArr(JObj(KV{"variation", JInt(0)}, KV{"weight", JInt(50000)}),
-			JObj(KV{"variation", JInt(2)}, KV{"weight", JInt(50000)}))})})},
+		KV{"fallthrough", JObj(KV{"rollout", func() *J {
+			// the split point of the rollout that follows is next to the context's bucket for (f0, fsalt) as well
+			var fw int64 = 50000
+			if b, ok := w.bucketOf(false, nil, rk, "f0", "", "fsalt"); ok {
+				fw = int64(float64(b)*100000) + int64(r.Range(-1, 2))
+				if fw < 0 {
+					fw = 0
+				}
+				if fw > 100000 {
+					fw = 100000
+				}
+			}
+			ro := JObj(KV{"variations", JArr(JObj(KV{"variation", JInt(0)}, KV{"weight", JInt(fw)}),
+				JObj(KV{"variation", JInt(2)}, KV{"weight", JInt(100000 - fw)}))})
+			if rk != "" {
+				ro.Set("contextKind", JStr(rk))
+			}
+			return ro
+		}()})},
 		KV{"offVariation", JInt(0)}, KV{"variations", JArr(JStr("v0"), JStr("v1"), JStr("v2"))}, KV{"salt", JStr("fsalt")}, KV{"version", JInt(1)})
 	form := []int{1, 1, 0, 4, 3}[r.Intn(5)]
 	c.Top = Item{Key: "f0", Form: form, Doc: flag}
